@@ -254,6 +254,15 @@ func c02Special() []refTree {
 			{Position: "components.schemas.Site", Kind: "schema", Form: "fragment", Shape: "mutual-cycle-across-files-" + kw, Ref: "ext/e.json#/components/schemas/B", Marker: "MARKB" + kw},
 		})
 	}
+	// a cycle that passes through a FILE holding nothing but a reference back to the object in progress
+	{
+		rootW := refRootSkeleton()
+		dig(rootW, "components", "schemas")["Site"] = gen.S{"$ref": "node.json"}
+		nodeW := gen.S{"type": "object", "title": "MARKWNODE", "properties": gen.S{"next": gen.S{"$ref": "alias.json"}, "name": gen.S{"type": "string"}}}
+		mk(rootW, map[string]gen.S{"w/node.json": nodeW, "w/alias.json": {"$ref": "node.json"}}, []refPlan{
+			{Position: "components.schemas.Site", Kind: "schema", Form: "whole-file", Shape: "cycle-through-a-file-holding-a-reference", Ref: "node.json", Marker: "MARKWNODE"},
+			{Position: "nested:Site.next", Kind: "schema", Form: "whole-file", Shape: "cycle-through-a-file-holding-a-reference", Ref: "alias.json", Marker: "MARKWNODE"}})
+	}
 	// cycles that pass through components that are nothing but a reference (aliases), visited before or after the object
 	for _, aliasName := range []string{"Alias", "Zalias"} {
 		for _, hops := range []int{1, 2} {
@@ -882,6 +891,12 @@ func c02Nested(d *openapi3.T, pos string) (string, string, bool, bool) {
 			return "", "", false, false
 		}
 		return schemaInfo(s.Value.Properties["n"])
+	case "nested:Site.next":
+		s := get("Site")
+		if s == nil || s.Value == nil {
+			return "", "", false, false
+		}
+		return schemaInfo(s.Value.Properties["next"])
 	case "nested:Node.next":
 		s := get("Node")
 		if s == nil || s.Value == nil {
